@@ -1088,3 +1088,32 @@ Proof.
       by (apply existsb_exists; exists e; auto). congruence.
   - destruct (pd_overlap v st (RP p)); inversion H; [left | right]; auto.
 Qed.
+
+(* ---------------------------------------------------------------- no registry *)
+(* a nil registry never hands anything out and never refuses a reservation *)
+Lemma reg_step_nil_spec k o : reg_step_nil k = Some o ->
+  (forall kk oo, o <> ROAns kk oo) /\ o <> ROReserved /\ o <> ROOverlap.
+Proof.
+  destruct k as [f pf ov vrf s [ob|] | f k x | f k x s [w|] | f x s [w|] | f k x [w|] | f x [w|] | b | f k | f pf];
+    simpl; intros H; inversion H; subst; repeat split; try discriminate; intros; discriminate.
+Qed.
+
+(* ResolveV4 with an optional registry: an offered address is staked in the registry (or unmanaged by it),
+   or there is no registry and the address is the one the context brought - never an invented one *)
+Lemma resolve4_opt_staked v r s cx obs wobs r' cx' a pool :
+  resolve4_ctx_opt v r s cx obs wobs = Some (r', cx', R4 a pool) ->
+  match r with
+  | Some st =>
+      exists st', r' = Some st' /\
+      ((exists k ac ps' a', (a' = a \/ a' = unmap a) /\
+          assoc_find key_eqb k (r_allocs st' F4) = Some (ac, ps') /\ lm_lookup a' (leases ps') = Some s) \/
+       (c4_addr cx = Some a /\ st' = st /\
+        forall e, In e (r_allocs st F4) -> acontains v (fst (snd e)) (RA (Some a)) = false))
+  | None => r' = None /\ c4_addr cx = Some a /\ pool = None /\ cx' = cx
+  end.
+Proof.
+  unfold resolve4_ctx_opt. intros H. destruct r as [st|].
+  - destruct (resolve4_ctx v st s cx obs wobs) as [[[st1 cx1] x]|] eqn:E; [|discriminate].
+    inversion H; subst. exists st1. split; [reflexivity|]. eapply resolve4_ctx_staked; eauto.
+  - destruct (c4_addr cx) as [b|]; [|destruct obs; discriminate]. inversion H; subst. auto.
+Qed.
